@@ -46,10 +46,25 @@ class TaskGroup:
         send: Callable[[Optional[ASGISendEvent]], Awaitable[None]],
     ) -> Callable[[ASGIReceiveEvent], Awaitable[None]]:
         app_queue: asyncio.Queue[ASGIReceiveEvent] = asyncio.Queue(config.max_app_queue_size)
+        app_finished = False
 
         def _call_soon(func: Callable, *args: Any) -> Any:
             future = asyncio.run_coroutine_threadsafe(func(*args), self._loop)
             return future.result()
+
+        async def _send(message: Optional[ASGISendEvent]) -> None:
+            nonlocal app_finished
+            if message is None:
+                # The app has finished, nothing will read the queue
+                # again: do not let anything wait for room in it.
+                app_finished = True
+                while not app_queue.empty():
+                    app_queue.get_nowait()
+            await send(message)
+
+        async def _put(message: ASGIReceiveEvent) -> None:
+            if not app_finished:
+                await app_queue.put(message)
 
         self.spawn(
             _handle,
@@ -57,11 +72,11 @@ class TaskGroup:
             config,
             scope,
             app_queue.get,
-            send,
+            _send,
             partial(self._loop.run_in_executor, None),
             _call_soon,
         )
-        return app_queue.put
+        return _put
 
     def spawn(self, func: Callable, *args: Any) -> None:
         self._task_group.create_task(func(*args))
